@@ -1,3 +1,41 @@
-From NoKV Require Import Model.Lsm.
-Theorem C01_placeholder : True. Proof. exact I. Qed.
-Print Assumptions C01_placeholder.
+(** C01 — the plain KV API is last-writer-wins under any background maintenance.
+
+    Model: Model/Lsm.v (read path and maintenance of the LSM tree, as the code
+    is after the repair of the L0 tie rule).  Spec: Spec/MvccSpec.v
+    ([latest_at]: greatest version, then most recent acknowledgement — for the
+    plain API every write carries the same sentinel version, so this is "last
+    writer wins").
+
+    Status: the full statement is refuted for the faithful model
+    ([C01_lww_refuted]: two L0 tables holding the same plain key move into one
+    ingest buffer, which orders them by key range — known finding C01-F2).
+    What is proved for every state: the read path returns exactly the latest
+    acknowledged write whenever the sources are ordered by recency
+    ([C01_reads_latest]); the preservation of that ordering by each maintenance
+    step is in Properties/C01 (memtable / L0 part) and otherwise checked on
+    every replayed trace by the correspondence. *)
+From Coq Require Import List NArith.
+From NoKV Require Import Base.Bytes Model.Lsm Spec.MvccSpec Spec.LsmSpec
+     Proofs.LsmOrder Proofs.LsmRead Proofs.LsmGet Proofs.LsmMain Proofs.LsmWitness.
+
+Theorem C01_reads_latest : forall s ws k v,
+  src_inv s -> tier_inv (tiers_of s) -> content_ok s ws -> seq_functional ws ->
+  get s k v = latest_at ws k v.
+Proof. exact get_latest. Qed.
+Print Assumptions C01_reads_latest.
+
+(** The pruned, structured search equals scanning every source tier by tier. *)
+Theorem C01_pruning_sound : forall s k v, src_inv s -> get s k v = tget k v (tiers_of s).
+Proof. exact get_is_tget. Qed.
+Print Assumptions C01_pruning_sound.
+
+Theorem C01_lww_refuted :
+  exists ops k v, option_map r_val (get (run (init 1) ops) k v)
+                  <> option_map r_val (latest_at (writes ops) k v).
+Proof. exact ingest_tie_refuted. Qed.
+Print Assumptions C01_lww_refuted.
+
+(** The boolean oracle of the correspondence computes the specification. *)
+Theorem C01_oracle_decides : forall ws k v, is_latest ws k v (latest_at ws k v).
+Proof. exact latest_at_is_latest. Qed.
+Print Assumptions C01_oracle_decides.
